@@ -347,6 +347,10 @@ FINDING_PROBES = [
 ]
 
 FIXED_CLI = [
+    # a static assertion holds iff the constant is non-zero as a 64-bit value (not after narrowing to int)
+    ('_Static_assert(0x100000000, ""); _Static_assert(1UL << 40, "m"); _Static_assert(0xffffffff00000000 & -1L, ""); _Static_assert(sizeof(char[0x100000000]), "");\n'
+     'struct s { int a; _Static_assert(0x7fffffff00000000, ""); }; enum { W = 0x300000000 }; void f(void) { _Static_assert(W, ""); _Static_assert(-0x100000000, ""); }\nint ok = 1;\n',
+     [('ok', 4, 1)]),
     # a u-suffixed constant that does not fit unsigned int is unsigned long in EVERY base: signedness-dependent folds
     ('int a = -0x100000000u > 0; long b = 0x7fffffffffffffffu / -1; long c = 040000000000u % -3; long d = -0x100000000u >> 60;\n'
      'int e = -0b100000000000000000000000000000000U > 0; int f = -4294967296u > 0; long g = -0x100000000 >> 60; int h = -0x100000000 > 0;\n',
